@@ -49,6 +49,8 @@ func c01Oracle(pc progCase, r *Result) {
 	}
 	if !a.Obs.Accepted() {
 		r.Note("rejected-by-analyzer", 1)
+		msg := append(append([]string{}, a.Obs.Syntax...), a.Obs.Errors...)
+		r.Note("rejected:"+r.cur+":"+normMsg(msg[0]), 1)
 		return
 	}
 	ref := hs.Eval(pc.Prog, &pc.P, refBudget)
